@@ -7,27 +7,32 @@ bp._solve_node_lp and knapsack_pricing supply events and the mechanism keys of a
 """
 
 ID = "C17"
-RULE = ("seeded cutting-stock instances (roll <= 14, <= 4 piece types, demands <= 6 in the exact strata; a few wide "
-        "ones above the oracle guard) and explicit column sets with an exactly scanning pricing callback; each "
+RULE = ("seeded cutting-stock instances (roll <= 14, <= 4 piece types, demands <= 6, or <= 3 types with demands <= 14, in "
+        "the exact strata; a few wide ones above the oracle guard) and explicit column sets with an exactly scanning pricing callback; each "
         "instance is solved by solve_cg and solve_bp; non-trivial = true optimum >= 2 and the pricer was consulted "
         "or a node was branched; distinct = distinct (instance, solver configuration)")
 ASSUMPTIONS = [
     "piece sizes positive ints <= roll width, demands non-negative ints",
     "custom mode: the initial columns cover every demanded row (a feasible restricted master), the pricing callback "
     "scans an explicit column set exactly and returns (column, reduced cost) or (None, 0.0)",
-    "default tolerances of the solvers (eps, gap_tol); max_iter only at values that the instance sizes never reach "
-    "in solve_cg (the limit is a configuration, the property quantifies over inputs)",
+    "default tolerances of the solvers (eps, gap_tol); the strata cs-config / custom-config add cut-off configurations "
+    "(max_iter 0..5, max_nodes 0..9, on_progress callbacks that stop the search at their k-th call), judged by the "
+    "same relation: a cut-off answer may be FEASIBLE but never a wrong OPTIMAL",
     "objective faithful within 1e-6; L2 tolerances 1e-7 (feasibility) / 1e-6 (values)",
     "exact optimum by DP over demand vectors (<= 60000 states); above the guard certificate_only",
 ]
 STRATA = [
-    ("cs-random", 260, 5200),
-    ("cs-halves", 220, 4400),
-    ("cs-dup-edge", 120, 2400),
-    ("cs-deep", 60, 1500),
-    ("custom-cols", 200, 4000),
-    ("custom-from-cs", 80, 1600),
-    ("cs-wide", 12, 240),
+    ("cs-random", 500, 6000),
+    ("cs-halves", 400, 5000),
+    ("cs-dup-edge", 200, 2500),
+    ("cs-deep", 500, 5000),
+    ("cs-two", 800, 8000),
+    ("custom-cols", 400, 5000),
+    ("custom-cycles", 300, 4000),
+    ("custom-from-cs", 120, 1500),
+    ("cs-config", 500, 6000),
+    ("custom-config", 250, 3000),
+    ("cs-wide", 12, 200),
 ]
 REQUIRED_EVENTS = {"any": ["c17.plan.checked", "c17.demand.checked", "c17.optimal.exact-compared",
                            "l2.cg.master.checked", "l2.bp.master.checked", "l2.bp.node.checked", "l2.pricing.checked",
@@ -60,7 +65,8 @@ def setup():
 
 def _cs(W, sizes, dem, rng, **kw):
     c = {"kind": "cs", "W": W, "sizes": list(sizes), "dem": list(dem),
-         "bp_max_iter": rng.choice([50, 50, 1000, None]), "float_width": rng.random() < 0.15}
+         "bp_max_iter": rng.choice([50, 50, 50, 1000, None, None, 3, 1]),
+         "bp_max_nodes": rng.choice([None] * 8 + [1, 2, 4, 8]), "float_width": rng.random() < 0.15}
     c.update(kw)
     return c
 
@@ -105,6 +111,35 @@ def gen(stratum, rng, tier):
         sizes = rng.sample(range(2, W), m)
         dem = [rng.randint(3, 9) for _ in sizes]
         return _cs(W, sizes, dem, rng)
+    if stratum == "cs-two":
+        # two piece types, larger demands: long chains of lower/upper branching bounds on few columns
+        W = rng.randint(6, 14)
+        sizes = rng.sample(range(2, W), 2)
+        dem = [rng.randint(4, 14) for _ in sizes]
+        return _cs(W, sizes, dem, rng)
+    if stratum in ("cs-config", "custom-config"):
+        # the same instances under cut-off configurations: tiny max_iter, node limits, on_progress callbacks
+        # that stop the search at their k-th call.  A cut-off answer may be FEASIBLE, never a wrong OPTIMAL.
+        base = rng.choice(["cs-random", "cs-halves", "cs-deep", "cs-two"]) if stratum == "cs-config" else rng.choice(["custom-cols", "custom-cycles"])
+        c = gen(base, rng, tier)
+        c.pop("bp_max_nodes", None)
+        c.pop("bp_max_iter", None)
+        how = rng.choice(["max_iter", "max_iter", "stop", "stop"])
+        if how == "max_iter":
+            c["cg_kw"] = {"max_iter": rng.choice([0, 1, 1, 2, 3, 5])}
+        else:
+            c["cg_stop"] = (rng.choice([1, 1, 2, 3, 4]), rng.choice([1, 1, 2]))
+        how = rng.choice(["max_iter", "max_nodes", "max_nodes", "stop", "stop", "both"])
+        if how == "max_iter":
+            c["bp_kw"] = {"max_iter": rng.choice([1, 2, 3, 5])}
+        elif how == "max_nodes":
+            c["bp_kw"] = {"max_nodes": rng.choice([0, 1, 1, 2, 3, 5, 9])}
+        elif how == "stop":
+            c["bp_stop"] = (rng.choice([1, 1, 2, 3, 5, 8]), rng.choice([1, 1, 2]))
+        else:
+            c["bp_kw"] = {"max_iter": rng.choice([2, 4, 50]), "max_nodes": rng.choice([2, 4, 8])}
+            c["bp_stop"] = (rng.choice([2, 4, 6]), 1)
+        return c
     if stratum == "cs-wide":
         W = rng.randint(20, 60)
         m = rng.randint(4, 6)
@@ -145,6 +180,35 @@ def gen(stratum, rng, tier):
                 init = [units[0]]
         return {"kind": "custom", "dem": dem, "cols": sorted(cols), "init": [tuple(c) for c in init],
                 "pick": rng.choice(["best", "best", "first"]), "bp_max_iter": rng.choice([50, 1000, None])}
+    if stratum == "custom-cycles":
+        # covering structures with an integrality gap (odd cycles, near-complementary pairs): deep trees in
+        # which every column that covers a row ends up with a branching bound
+        m = rng.randint(3, 4) if rng.random() < 0.8 else 5
+        k = rng.choice([1, 1, 2])
+        cols = set()
+        for i in range(m):
+            c = [0] * m
+            c[i] = k
+            c[(i + 1) % m] = k
+            cols.add(tuple(c))
+        for _ in range(rng.randint(0, 3)):
+            c = tuple(rng.randint(0, 2) if rng.random() < 0.5 else 0 for _ in range(m))
+            if any(c):
+                cols.add(c)
+        base = rng.randint(1, 6)
+        dem = [max(0, min(6, base + rng.choice([0, 0, 0, 1, -1]))) for _ in range(m)]
+        if not any(dem):
+            dem[0] = 1
+        pool = sorted(cols)
+        rng.shuffle(pool)
+        init = []
+        for i in range(m):
+            if dem[i] > 0 and not any(c[i] > 0 for c in init):
+                init.append(next(c for c in pool if c[i] > 0))
+        if rng.random() < 0.3:
+            init = pool
+        return {"kind": "custom", "dem": dem, "cols": sorted(cols), "init": [tuple(c) for c in init],
+                "pick": rng.choice(["best", "first"]), "bp_max_iter": rng.choice([50, None])}
     if stratum == "custom-from-cs":
         W = rng.randint(5, 12)
         m = rng.randint(2, 3)
@@ -232,14 +296,14 @@ def _solve_all(case, dem, common_kw, universe, fits, opt, obs, label):
 
     anomalies = 0
     trace = []
-    runs = [("cg", _cg.solve_cg, {})]
-    bkw = {}
+    runs = [("cg", _cg.solve_cg, dict(case.get("cg_kw") or {}), case.get("cg_stop"))]
+    bkw = dict(case.get("bp_kw") or {})
     if case.get("bp_max_iter"):
         bkw["max_iter"] = case["bp_max_iter"]
     if case.get("bp_max_nodes"):
         bkw["max_nodes"] = case["bp_max_nodes"]
-    runs.append(("bp", _bp.solve_bp, bkw))
-    for solver, fn, kw in runs:
+    runs.append(("bp", _bp.solve_bp, bkw, case.get("bp_stop")))
+    for solver, fn, kw, stop in runs:
         _mon.CTX["universe"] = universe
         _mon.CTX["lp_budget"] = 12
         _mon.CTX["node_budget"] = 6
@@ -248,9 +312,16 @@ def _solve_all(case, dem, common_kw, universe, fits, opt, obs, label):
         nv = len(obs.violations)
         ckw = common_kw()
         ckw.update(kw)
-        res = call(obs, fn, list(dem), what=f"solve_{solver}", budget=case.get("budget", 60_000_000), **ckw)
+        shown = dict(kw)
+        if stop:
+            ckw["on_progress"] = _stopper(stop[0], obs)
+            ckw["progress_interval"] = stop[1]
+            shown["on_progress"] = f"stop at call {stop[0]}, interval {stop[1]}"
+        if kw or stop:
+            obs.event("c17.config.cut-off-run")
+        res = call(obs, fn, list(dem), what=f"solve_{solver}", budget=case.get("budget", 25_000_000), **ckw)
         if not is_crash(res):
-            _judge(res, solver, dem, fits, opt, obs, f"solve_{solver} {label} {kw or ''}")
+            _judge(res, solver, dem, fits, opt, obs, f"solve_{solver} {label} {shown or ''}")
             it = getattr(res, "iterations", 0) or 0
             if solver == "bp" and it:
                 obs.event("c17.bp.branched-run")
@@ -260,6 +331,19 @@ def _solve_all(case, dem, common_kw, universe, fits, opt, obs, label):
             obs.violations[-1] = (c, (d + " || L2: " + " | ".join(trace))[:2000])
     _mon.CTX["universe"] = None
     return anomalies
+
+
+def _stopper(k, obs):
+    calls = [0]
+
+    def on_progress(progress):
+        calls[0] += 1
+        if calls[0] >= k:
+            obs.event("c17.config.stop-requested")
+            return True
+        return False
+
+    return on_progress
 
 
 def _scan_pricing(cols, pick, counter):
@@ -384,6 +468,11 @@ def shrink(case):
         c = dict(case)
         c["float_width"] = False
         yield c
+    for k in ("bp_max_nodes", "bp_max_iter"):
+        if case.get(k):
+            c = dict(case)
+            c[k] = None
+            yield c
 
 
 def finding_keys(case, obs):
